@@ -19,6 +19,9 @@ for sd in seeds:
     if not os.path.exists(os.path.join(d, "patch.diff")):
         continue
     meta = json.load(open(os.path.join(d, "meta.json")))
+    if meta.get("neutralised_by"):
+        print("%-8s skipped: no longer breaks the property after fix %s" % (sd, meta["neutralised_by"]), flush=True)
+        continue
     caught = [p for p, r in meta.get("checks", {}).items() if r.get("exit") == 1] or [meta.get("property")]
     prop = caught[0]
     assert sh("git -C /repo status --short")[1].strip() == "", "repo not clean"
